@@ -400,6 +400,26 @@ fn make_batch(r: &mut Rng, typed: bool) -> Vec<Src> {
         }
         srcs.push(Src::Build { hist: h, borrowed: false });
     }
+    // detours through an immutable PURL: add something, build, take it out again — the
+    // result must be the very value a direct history gives (no hidden state survives)
+    let detour_base = Ft { ty: if typed { "npm".into() } else { "t".into() }, ns: "d".into(), name: "detour".into(), ver: "1".into(), quals: vec![("k".into(), "v".into())], sub: String::new() };
+    srcs.push(Src::Build { hist: detour_base.hist(), borrowed: false });
+    for (add, undo) in [
+        (Call::Qual("checksum".into(), "B:FF,a:00".into()), Call::NoQual("checksum".into())),
+        (Call::Qual("zz".into(), "1".into()), Call::NoQual("ZZ".into())),
+        (Call::Sub("x/y".into()), Call::NoSub),
+        (Call::Checksum(Some(vec![("sha1".into(), CsVal::Bytes(vec![1, 2]))])), Call::Checksum(None)),
+        (Call::Typed(0, Some("u".into())), Call::Typed(0, None)),
+    ] {
+        let mut h = detour_base.hist();
+        h.calls.push(add);
+        h.calls.push(Call::Rebuild);
+        h.calls.push(undo);
+        if r.coin() {
+            h.calls.push(Call::Rebuild);
+        }
+        srcs.push(Src::Build { hist: h, borrowed: r.coin() });
+    }
     r.shuffle(&mut srcs);
     srcs.truncate(384);
     srcs
